@@ -154,6 +154,17 @@ pub fn catalogue() -> Vec<Deviation> {
         dev!("sub_short_flag", |c| { sub(c).short_flag = Some('S'); }),
         dev!("sub_long_flag", |c| { sub(c).long_flag = Some("sync".into()); }),
         dev!("sub_alias", |c| { sub(c).aliases.push("s2".into()); }),
+        dev!("sub_long_flag_alias", |c| {
+            if sub(c).long_flag.is_none() { sub(c).long_flag = Some("sync".into()); }
+            sub(c).long_flag_aliases.push("refresh".into());
+        }),
+        dev!("opt_possible_values_all_hidden", |c| {
+            o(c).parser = Vp::Pv(vec![
+                PvSpec { name: "v".into(), hide: true, help: Some("hidden v".into()), ..Default::default() },
+                PvSpec { name: "w".into(), hide: true, ..Default::default() },
+            ]);
+        }),
+        dev!("long_about", |c| { c.long_about = Some("a long about text".into()); c.about = Some("about".into()); }),
         dev!("sub_nested", |c| {
             let mut d = CmdSpec::new("deep");
             d.short_flag = Some('D');
@@ -240,6 +251,10 @@ pub fn alphabet(c: &CmdSpec) -> Vec<Vec<u8>> {
         }
         if s.long_flag.is_some() {
             add(b"--sync");
+        }
+        if !s.long_flag_aliases.is_empty() {
+            add(b"--refresh");
+            add(b"--refr");
         }
         if !s.aliases.is_empty() {
             add(b"s2");
